@@ -275,6 +275,31 @@ def run_case_bptk(case, tier):
                     if not core.close(v, ref.value(nm, t), rel=1e-9, ab=1e-9):
                         viol.append(("bptk-value/%s" % spec["elements"][nm]["kind"], "%s(%r) = %r, Euler reference %r (dt=%r start=%r)" % (nm, float(t), v, ref.value(nm, t), float(d), st)))
                         raise StopIteration
+        if not viol:
+            # the source is edited and the model file regenerated (as BPTK's model monitor does), then the scenario is reset:
+            # the scenario must now follow the edited model
+            from BPTK_Py.sdcompiler.compile import compile_xmile
+            import time as _time
+            g2 = graph1(n_in, n_out, shape0, mode, init + 5.0)
+            spec2 = to_refspec(g2, st, stop, d)
+            ref2 = refsd.RefModel(spec2)
+            with open(os.path.join(pdir, pkg, "src.stmx"), "w") as f:
+                f.write(to_stmx(g2, st, stop, dt, rec))
+            compile_xmile(os.path.join(pkg, "src.stmx"), os.path.join(pkg, "gen.py"), "py")
+            future = _time.time() + 5
+            os.utime(os.path.join(pdir, pkg, "gen.py"), (future, future))     # the generated file is newer than the source
+            importlib.invalidate_caches()
+            b.reset_scenario(scenario_manager="smx", scenario="base")
+            df2 = b.run_scenarios(scenarios=["base"], scenario_managers=["smx"], equations=list(keys.values()), return_format="df")
+            for nm in names:
+                col = list(df2[keys[nm]])
+                for i, t in enumerate(times):
+                    ncmp += 1
+                    if not core.close(col[i], ref2.value(nm, t), rel=1e-9, ab=1e-9):
+                        viol.append(("bptk-value-after-source-edit/%s" % spec["elements"][nm]["kind"],
+                                     "after the source was edited (initial value %r -> %r), regenerated and the scenario reset: %s(%r) = %r, Euler reference of the edited model %r" % (
+                                         init, init + 5.0, nm, float(t), col[i], ref2.value(nm, t))))
+                        raise StopIteration
     except StopIteration:
         pass
     except Exception as e:
